@@ -351,7 +351,9 @@ static ssize_t stream_read(Kernel::FdEntry *f, struct iovec *iov, int iovcnt, vo
     if (f->nonblock || (flags & MSG_DONTWAIT)) { errno = EAGAIN; return -1; }
     if (!block_until([&] { return e->rx_bytes > 0 || e->peer_gone || e->peer_shut_wr; }, -1)) { errno = EAGAIN; return -1; }
     if (e->rx_bytes == 0) return 0;
-  } else if (f->nonblock && fault(K->io.eagain_read_pct, "spurious_eagain_r")) {
+  } else if (f->nonblock && want > 1 && fault(K->io.eagain_read_pct, "spurious_eagain_r")) {
+    // (not on 1-byte reads: the credentials-byte read documents that it does not expect EAGAIN after
+    // readiness, and Linux AF_UNIX sockets do not produce it)
     errno = EAGAIN; return -1;
   }
   if (control && fault(K->io.sys_err_pct, "sys_err_recv")) { errno = ENOBUFS; return -1; }
